@@ -46,6 +46,15 @@ Fits(pos, id) ==
 VARIABLES item, phase
 vars == <<item, phase>>
 Init == item = [pos |-> "-"] /\ phase = "choose"
+\* Names the generated code falls back to when the user already took its first choice (recorded from real expansions:
+\* a type with a parameter called like a generated generic gets e.g. `H_` instead of `H`).  The user may hold *both*
+\* names, in either declaration order, as type or const parameters.
+Avoid == { Facts.avoid[i] : i \in DOMAIN Facts.avoid }        \* pairs <<taken, fallback>>
+ChoosePair ==
+  /\ phase = "choose"
+  /\ \E p \in Avoid : \E ord \in {"taken_first", "fallback_first"} : \E sorts \in {"tt", "tc", "ct"} : \E k \in Kinds :
+       item' = [pos |-> "parampair", id |-> p[1], id2 |-> p[2], order |-> ord, sorts |-> sorts, kind |-> k, traits |-> "cmp8"]
+  /\ phase' = "emit"
 ChooseDerived ==
   /\ phase = "choose"
   /\ \E id \in DerivedNames : \E k \in Kinds : \E ts \in TraitSets :
@@ -63,7 +72,7 @@ Emit ==
   /\ phase' = "done"
   /\ UNCHANGED item
   /\ PrintT(<<"HOSTILE", ToJson(item)>>)
-Next == Choose \/ ChooseDerived \/ Emit
+Next == Choose \/ ChooseDerived \/ ChoosePair \/ Emit
 Spec == Init /\ [][Next]_vars
 \* every pool identifier is tried at least at one position (checked by the harness on the emitted set)
 TypeOK == phase \in {"choose", "emit", "done"}
